@@ -246,7 +246,7 @@ def body():
         rng = random.Random(V.seed())
         known = V.load_known(PROP)
         # (A) design: the repaired rule satisfies the property; the coded rule and the first candidate do not
-        mcs = [V.model_check("LastGER.tla", "LastGER.cfg" if thorough else "LastGERQuick.cfg", sc, timeout=1200)]
+        mcs = [V.model_check("LastGER.tla", "LastGER.cfg" if thorough else "LastGERQuick.cfg", sc, timeout=3000)]
         if thorough:
             mcs.append(V.model_check("LastGER.tla", "LastGERNoReorg.cfg", sc, timeout=1200))
             mcs.append(V.model_check("LastGER.tla", "LastGERNG3.cfg", sc, timeout=1200))
